@@ -32,6 +32,8 @@ pub struct GenCfg {
     pub root_id: bool,
     /// allow regex operators
     pub regex: bool,
+    /// never use a tag operand with `>=` (C04: listed known finding, replayed from its witness)
+    pub no_ge_tag: bool,
 }
 
 impl Default for GenCfg {
@@ -53,6 +55,7 @@ impl Default for GenCfg {
             require_count_filter: false,
             root_id: false,
             regex: true,
+            no_ge_tag: false,
         }
     }
 }
@@ -465,7 +468,7 @@ pub fn generate(m: &SchemaModel, cfg: &GenCfg, rng: &mut Rng) -> Generated {
             return None;
         }
         // tag operand?
-        if rng.chance(cfg.w_tag) {
+        if rng.chance(cfg.w_tag) && !(cfg.no_ge_tag && op == Op::Ge) {
             let mut cands: Vec<TagCand> = vec![];
             for (i, s) in props.iter().enumerate() {
                 if Some(i) == self_site {
